@@ -392,6 +392,70 @@ def obligations(tier):
     for pi_ in ((1, 3, 4) if tier == 'quick' else range(6)):
         obs.append(Obligation(f'chform.reindex.perm{pi_}', lambda cx, pi_=pi_: reindex_body(cx, pi_=pi_), twin=(lambda cx, pi_=pi_: reindex_body(cx, wrong=True, pi_=pi_)) if pi_ in (1, 3) else None, opts={'weight': 30, 'vc_timeout_ms': 120000}, desc='StabilizerStateChForm.reindex(axes) for every permutation of 3 qubits from an ARBITRARY valid CH-form state (F, G, M, gamma, v, s symbolic under the representation invariant): every amplitude <y|reindexed> equals the amplitude of the correspondingly permuted basis state of the original'))
 
+    # ---- (e) single-qubit Clifford group: the solver enumerates all valid 1-qubit tableaux (24), pairs for binary laws
+    def enum_tableau(cx, prefix):
+        """concrete valid 1-qubit tableau chosen by the solver (every valid one is a path)"""
+        bits = {}
+        for nm in ('x0', 'z0', 'r0', 'x1', 'z1', 'r1'):
+            bits[nm] = cx.bool(prefix + nm)
+        # symplectic: rows anticommute
+        t1 = bits['x0'] & bits['z1'] if cx.mode != 'concrete' else (bits['x0'] and bits['z1'])
+        t2 = bits['z0'] & bits['x1'] if cx.mode != 'concrete' else (bits['z0'] and bits['x1'])
+        cx.assume((t1 ^ t2) if cx.mode != 'concrete' else (t1 != t2))
+        v = {k: bool(b) for k, b in bits.items()}  # forks: one path per valid tableau
+        return cirq.CliffordTableau(1, rs=np.array([v['r0'], v['r1']]), xs=np.array([[v['x0']], [v['x1']]]), zs=np.array([[v['z0']], [v['z1']]]))
+
+    def phase_equal(A, B):
+        k = np.argmax(np.abs(B))
+        i, j = divmod(int(k), B.shape[1])
+        return abs(abs(A[i, j]) - abs(B[i, j])) < 1e-9 and np.allclose(A * B[i, j], B * A[i, j], atol=1e-9)
+
+    def table_of(t):
+        """conjugation table {X-bits -> (bits, flip)} described by a 1-qubit tableau (rows: image of X, image of Z)"""
+        return {(1, 0): ((int(t.xs[0, 0]), int(t.zs[0, 0])), int(t.rs[0])), (0, 1): ((int(t.xs[1, 0]), int(t.zs[1, 0])), int(t.rs[1]))}
+
+    def group_body(cx, wrong=False):
+        t1 = enum_tableau(cx, 'a')
+        g1 = cirq.SingleQubitCliffordGate.from_clifford_tableau(t1)
+        U1 = cirq.unitary(g1)
+        tab = OP.conjugation_table(U1, 1)
+        want = table_of(t1)
+        ok = all(tab[k] == want[k] for k in want)
+        if wrong:
+            ok = not ok
+        cx.check(ok, label='clifford1q: unitary conjugates X,Z as the tableau says')
+        q = cirq.LineQubit(0)
+        # inverse / powers
+        cx.check(phase_equal(cirq.unitary(g1**-1) @ U1, np.eye(2)), label='clifford1q: g**-1 undoes g')
+        cx.check(phase_equal(cirq.unitary(g1**2), U1 @ U1), label='clifford1q: g**2')
+        cx.check(cirq.SingleQubitCliffordGate.from_unitary(U1) == g1, label='clifford1q: from_unitary(unitary(g)) == g')
+        prod = np.eye(2, dtype=complex)
+        for gg in g1.decompose_gate():
+            prod = cirq.unitary(gg) @ prod
+        cx.check(phase_equal(prod, U1), label='clifford1q: decompose_gate product')
+        prod = np.eye(2, dtype=complex)
+        for op in cirq.decompose_once(g1.on(q)):
+            prod = cirq.unitary(op) @ prod
+        cx.check(phase_equal(prod, U1), label='clifford1q: decompose_once product')
+        cx.check(t1.inverse().then(t1) == cirq.CliffordTableau(1) and t1.then(t1.inverse()) == cirq.CliffordTableau(1), label='tableau: inverse')
+        gen = cirq.CliffordGate.from_clifford_tableau(t1)
+        cx.check(phase_equal(cirq.unitary(gen), U1), label='CliffordGate.from_clifford_tableau unitary')
+        # binary laws with a second enumerated element
+        t2 = enum_tableau(cx, 'b')
+        g2 = cirq.SingleQubitCliffordGate.from_clifford_tableau(t2)
+        U2 = cirq.unitary(g2)
+        cx.check(phase_equal(cirq.unitary(g1.merged_with(g2)), U2 @ U1), label='clifford1q: merged_with == second after first')
+        t12 = t1.then(t2)
+        tab12 = OP.conjugation_table(U2 @ U1, 1)
+        w12 = table_of(t12)
+        cx.check(all(tab12[k] == w12[k] for k in w12), label='tableau: then == matrix product')
+        cx.check(phase_equal(cirq.unitary(cirq.CliffordGate.from_op_list([g1.on(q), g2.on(q)], [q])), U2 @ U1), label='CliffordGate.from_op_list')
+        cm = cirq.commutes(g1, g2, default=None)
+        if cm is True and False:
+            pass
+
+    obs.append(Obligation('clifford.group1q', group_body, twin=lambda cx: group_body(cx, wrong=True), opts={'weight': 20, 'max_paths': 5000}, kind='bounded-exploration', desc='EXHAUSTIVE (solver-enumerated): all 24 valid one-qubit tableaux and all 576 ordered pairs: SingleQubitCliffordGate.from_clifford_tableau / unitary / **-1 / **2 / from_unitary / decompose_gate / decompose_once / merged_with / CliffordGate.from_clifford_tableau / from_op_list and CliffordTableau.then / inverse agree with the matrices (up to global phase)'))
+
     CHG = [
         ('X', cirq.X, 1), ('Y', cirq.Y, 1), ('Z', cirq.Z, 1), ('H', cirq.H, 1), ('S', cirq.S, 1), ('Sdg', cirq.S**-1, 1),
         ('sqrtX', cirq.X**0.5, 1), ('sqrtXdg', cirq.X**-0.5, 1), ('sqrtY', cirq.Y**0.5, 1), ('sqrtYdg', cirq.Y**-0.5, 1),
@@ -457,6 +521,7 @@ def main(tier, seed=0, replay=None, only=None, procs=None):
         'measure': 'n = 2 (quick) / 2, 3 (thorough), every qubit, arbitrary valid tableau, both coin outcomes',
         'chform': 'reindex for 3 (quick: one swap and both 3-cycles) / all 6 (thorough) permutations of 3 qubits from an arbitrary valid CH-form state',
         'chform_gates': '7 (quick) / 16 (thorough) gates (Paulis, H, S, sqrt X/Y and inverses, CZ, CX, SWAP, shifted gates, global phase) on an arbitrary valid 2-qubit CH state, all placements, every amplitude incl. global phase',
-        'outside': ['CliffordTableau.then / inverse', 'CH-form measurement (project_Z), kron', 'CliffordGate group laws', 'n > 3'],
+        'group': 'all 24 one-qubit Clifford elements and all 576 ordered pairs (solver-enumerated, exhaustive)',
+        'outside': ['two-qubit Clifford group (11520 elements) laws, CliffordTableau.then/inverse for n >= 2', 'CH-form measurement (project_Z), kron', 'n > 3'],
     }
     return run_check(PID, tier, 'checks.C13', SHIMS, LEVEL, BASE_ASSUMPTIONS, bounds, seed=seed, replay=replay, only=only, procs=procs)
